@@ -95,6 +95,12 @@ def run_streams(ctx, nstreams, hostile=True, single_cuts=30, randoms=4, raise_ha
         ans = ctx.driver.ask(lines) if ctx.driver else None
         pos = 1
         want_seq = expected_seq(ans[0], seq) if ans else None
+        if ans and offline_deliveries(ans[0]) != whole_d:
+            ctx.counterexample("not-offline-parse", dict(stream=hx(s), elements=labels, chunking="whole", chunks=[hx(s)],
+                                                         state=dict(pack_seq=seq, transport=tr, ack_event=ev), handler_raises_at=[]),
+                               offline_deliveries(ans[0]), whole_d,
+                               "the deliveries for the stream read at once are not the well-formed frames of the stream "
+                               "(a frame is lost, invented, or withheld although its last byte has arrived)")
         for label, chunks, outs, final, raised, raise_at in metas:
             inp = dict(stream=hx(s), elements=labels, chunking=label, chunks=[hx(c) for c in chunks],
                        state=dict(pack_seq=seq, transport=tr, ack_event=ev), handler_raises_at=list(raise_at))
